@@ -40,6 +40,7 @@ type prog struct {
 	KA10    bool
 	Hdrs    [][2]string // application header ops (Add)
 	Trailer bool
+	BigHead int // > 0: an application header value of that many bytes (response heads of 4..13 KiB)
 	Seed    uint64
 }
 
@@ -160,6 +161,9 @@ func (st *state) handle(ctx *app.RequestContext) {
 	ctx.Response.Header.Set("X-Id", strconv.Itoa(id))
 	for _, h := range p.Hdrs {
 		ctx.Response.Header.Add(h[0], h[1])
+	}
+	if p.BigHead > 0 {
+		ctx.Response.Header.Set("X-Big", strings.Repeat("h", p.BigHead))
 	}
 	if p.Close {
 		ctx.SetConnectionClose() // before any body op: the chunked writer sends the header on its first write
@@ -295,6 +299,9 @@ func oneConn(w *mon.W, c *mon.Case, e *route.Engine, st *state, lb *loop.Server)
 			p.Hdrs = append(p.Hdrs, [2]string{r.Str("X-A", "X-B", "Set-Cookie", "Cache-Control", "X-A"), r.Str("v1", "a=b; Path=/", "no-cache", "x, y", "")})
 		}
 		p.Trailer = r.Chance(4)
+		if r.Chance(6) {
+			p.BigHead = r.Int(3900, 4096, 5000, 8192, 9000, 13000)
+		}
 		p.Close = i == n-1 && r.Chance(3)
 		p.HTTP10 = r.Chance(6)
 		p.KA10 = p.HTTP10 && (i < n-1 || r.Bool())
@@ -441,7 +448,7 @@ func oneConn(w *mon.W, c *mon.Case, e *route.Engine, st *state, lb *loop.Server)
 }
 
 func describe(p prog) string {
-	return fmt.Sprintf("%s status=%d mode=%s size=%d writes=%v close=%v http10=%v ka10=%v trailer=%v hdrs=%v", p.Method, p.Status, p.Mode, p.Size, p.Writes, p.Close, p.HTTP10, p.KA10, p.Trailer, p.Hdrs)
+	return fmt.Sprintf("%s status=%d mode=%s size=%d writes=%v close=%v http10=%v ka10=%v trailer=%v bighead=%d hdrs=%v", p.Method, p.Status, p.Mode, p.Size, p.Writes, p.Close, p.HTTP10, p.KA10, p.Trailer, p.BigHead, p.Hdrs)
 }
 
 func trunc(s string, n int) string {
@@ -488,6 +495,9 @@ func compare(m *wire.Message, p prog, id int) string {
 	wantH := map[string][]string{}
 	for _, h := range p.Hdrs {
 		wantH[h[0]] = append(wantH[h[0]], h[1])
+	}
+	if p.BigHead > 0 {
+		wantH["X-Big"] = []string{strings.Repeat("h", p.BigHead)}
 	}
 	gotH := map[string][]string{}
 	for _, f := range m.Fields {
